@@ -58,9 +58,14 @@ def generate(rng, tier):
     # the same member id leaving at one address and joining at another IN ONE change, rejoin) and after each one a
     # Consistency::None write is handed to it: it must reach exactly the current members (one batching tick each)
     cases.append(['case %d cluster' % idx, 'nodes 4', 'dist-start 0', 'dist-change 0 - 12@2', 'dist-put 0 1 aa',
-                  'dist-change 0 12@2 12@3', 'dist-put 0 2 bb', 'dist-change 0 12@3 -', 'dist-put 0 3 cc', 'end']); idx += 1
+                  'dist-change 0 12@2 12@3', 'dist-put 0 2 bb', 'dist-burst 0 1500', 'dist-change 0 - 13@1', 'dist-put 0 4 dd',
+                  'dist-change 0 12@3 -', 'dist-put 0 3 cc', 'end']); idx += 1
     for _ in range(dict(quick=3, thorough=60, search=8)[tier]):
         cases.append(gen_dist(rng.fork(), idx)); idx += 1
+    # full stack: two REAL nodes with the real store extension; node 2 leaves (its RPC server stays reachable); once node 1's
+    # membership says so, a Consistency::None write of node 1 must not be sent to it any more (about 20 s per case)
+    for _ in range(dict(quick=1, thorough=3, search=1)[tier]):
+        cases.append(['case %d full' % idx, 'leave', 'end']); idx += 1
     return cases
 
 
@@ -84,6 +89,9 @@ def gen_dist(rng, idx):
             joined.append('%d@%d' % (mid, new)); members[mid] = new
         else:
             continue
+        if rng.chance(1, 3):
+            # a burst of writes fills the distributor's queue right before the membership change arrives
+            lines.append('dist-burst 0 %d' % rng.choice([200, 999, 1000, 1001, 1500, 3000]))
         lines.append('dist-change 0 %s %s' % (','.join(left) or '-', ','.join(joined) or '-'))
         doc += 1
         lines.append('dist-put 0 %d %02x' % (doc, rng.below(256)))
@@ -96,6 +104,13 @@ def augment(case, impl):
 
 
 def canon(line, out):
+    if line == 'leave' and out.startswith('full sanity='):
+        d = dict(x.split('=') for x in out.split()[1:])
+        if d['sanity'] != 'true' or d['left_seen'] != 'true':
+            return 'full safe'        # the cluster did not form / the departure was not detected in time: inconclusive
+        return 'full safe' if d['delivered_after_leave'] == 'false' else 'full UNSAFE ' + out
+    if line == 'leave' and out.startswith('full not-started'):
+        return 'full safe'
     return out.split(' ts=')[0] if line.startswith('dist-put') else out
 
 
@@ -105,6 +120,8 @@ def oracle(case, impl):
     members = {}
     for line, out in zip(case, impl):
         t = line.split()
+        if line == 'leave' and canon(line, out) != 'full safe':
+            bad.append('a member that left is still replicated to by the store\'s distributor (%s)' % out)
         if t[0] == 'dist-change':
             for m in ([] if t[2] == '-' else t[2].split(',')):
                 mid, at = m.split('@')
